@@ -48,6 +48,8 @@ RULE = (
     "transform. non-trivial = k or m not in {1,2}, or trim_inf off, or a b-scaled map (explicit or inferred b), or scalar "
     "input, or an inverted transform; distinct = distinct descriptor"
 )
+RULE = RULE + " " + 'Array calls go through one persistent work buffer per length (re-filled in place between calls; inverse-derivative calls repeated on the re-filled buffer, input must stay unmodified); sub-check integer-dtype: int64 arrays of interior points must give the float64 numbers or be rejected loudly.'
+
 ASSUMPTIONS = [
     "the class docstrings of rtransform.py define the maps; the garbled Exp/Power forward docstrings are read as the "
     "functional inverse of the documented inverse, which is also what 'r(0)=rmin, r(b)=rmax' in the same docstring demands",
